@@ -15,6 +15,8 @@ import (
 
 	"cosmossdk.io/math"
 	sdk "github.com/cosmos/cosmos-sdk/types"
+	distrtypes "github.com/cosmos/cosmos-sdk/x/distribution/types"
+	ammtypes "github.com/elys-network/elys/x/amm/types"
 )
 
 type shockLeaf struct {
@@ -107,9 +109,78 @@ func (h *Hist) shockSet(l shockLeaf) string {
 	return "?"
 }
 
+// govApplyRecorded: ValidateBasic, apply as a passed proposal, record for replay; false when refused.
+func (h *Hist) govApplyRecorded(msg sdk.Msg) bool {
+	if vb, ok := msg.(sdk.HasValidateBasic); ok {
+		bad := false
+		func() {
+			defer func() {
+				if recover() != nil {
+					bad = true
+				}
+			}()
+			if vb.ValidateBasic() != nil {
+				bad = true
+			}
+		}()
+		if bad {
+			return false
+		}
+	}
+	if !govApply(h.w, msg) {
+		return false
+	}
+	curPre = append(curPre, J{"kind": "gov", "msg": c17MsgJSON(h.w, msg)})
+	return true
+}
+
+// govDistrShock: the fee distribution the estaking module wraps (x/estaking/modules/distribution) is governed by the SDK's
+// distribution parameters: the community tax is set to a boundary value its validation permits.
+func (h *Hist) govDistrShock() string {
+	var dp distrtypes.Params
+	h.w.Seed(func(ctx sdk.Context) { dp, _ = h.w.App.DistrKeeper.Params.Get(ctx) })
+	tax := []string{"0", "1", "0.000000000000000001", "0.5", "0.02"}[h.r.Intn(5)]
+	dp.CommunityTax = D(tax)
+	if h.govApplyRecorded(&distrtypes.MsgUpdateParams{Authority: h.w.Gov, Params: dp}) {
+		return "distribution.CommunityTax=" + tax
+	}
+	return ""
+}
+
+// govPoolShock: governance rewrites the parameters of one amm pool (MsgUpdatePoolParams on the pool's current parameters): the
+// oracle switch is flipped or the swap fee moved.
+func (h *Hist) govPoolShock() string {
+	p := h.std.Pools[h.r.Intn(len(h.std.Pools))]
+	var pp ammtypes.PoolParams
+	found := false
+	h.w.Seed(func(ctx sdk.Context) {
+		if pool, ok := h.w.App.AmmKeeper.GetPool(ctx, p.Id); ok {
+			pp, found = pool.PoolParams, true
+		}
+	})
+	if !found {
+		return ""
+	}
+	what := ""
+	if h.r.Intn(2) == 0 {
+		pp.UseOracle = !pp.UseOracle
+		what = fmt.Sprintf("pool%d.UseOracle=%v", p.Id, pp.UseOracle)
+	} else {
+		pp.SwapFee = D([]string{"0", "0.001", "0.01", "0.02"}[h.r.Intn(4)])
+		what = fmt.Sprintf("pool%d.SwapFee=%s", p.Id, pp.SwapFee)
+	}
+	if h.govApplyRecorded(&ammtypes.MsgUpdatePoolParams{Authority: h.w.Gov, PoolId: p.Id, PoolParams: pp}) {
+		return what
+	}
+	return ""
+}
+
 // govShock applies one mutated governance message; "" when nothing was applied (validation or the handler refused it).
 func (h *Hist) govShock() string {
 	w := h.w
+	if h.r.Intn(8) == 0 {
+		return h.govDistrShock()
+	}
 	urls := make([]string, 0, len(c17Ctors))
 	for u := range c17Ctors {
 		urls = append(urls, u)
